@@ -2,7 +2,7 @@
    X_core / X_perfect / obsfcst_compute are GENERATED from /repo's verif/metric.py on every run;
    F l is the vector of finite reals l, agg the -agg function.  Proofs in Proofs/C05_proofs.v. *)
 From Coq Require Import Reals List Bool QArith.
-From VF Require Import Base.Num Base.Vec Base.Event Gen.Gen_interval Gen.Gen_detmetrics Proofs.RList Proofs.C05_proofs.
+From VF Require Import Base.Num Base.Vec Base.Event Gen.Gen_interval Gen.Gen_detmetrics Proofs.RList Proofs.C05_proofs Proofs.C05_corr.
 Import ListNotations.
 Local Open Scope R_scope.
 
@@ -84,6 +84,15 @@ Theorem C05_diff_perfect_any_aggregator : forall obs agg, is_fin (agg (F obs)) -
 Proof. exact Diff_perfect_attained. Qed.
 
 Print Assumptions C05_stderror_definition.
+(* correlation: Cauchy-Schwarz, hence never above the declared perfect score 1 (nor below -1); a perfect forecast scores 1 *)
+Theorem C05_cauchy_schwarz : forall a b, dot a b * dot a b <= ssq a * ssq b.
+Proof. exact cauchy_schwarz. Qed.
+Theorem C05_corr_between_minus_one_and_one : forall obs fcst v, fcst <> [] ->
+  Corr_core XR (F obs) (F fcst) = Fin v -> -1 <= v <= 1.
+Proof. exact Corr_bounded. Qed.
+Theorem C05_corr_of_identical_vectors_is_one : forall a, a <> [] -> 0 < ssq (dev a) -> pearson XR (F a) (F a) = Fin 1.
+Proof. exact pearson_perfect. Qed.
+Print Assumptions C05_corr_between_minus_one_and_one.
 Print Assumptions C05_nsec_never_above_one.
 Print Assumptions C05_no_valid_pair_is_nan.
 
